@@ -206,6 +206,35 @@ func (w *world) Resolve(pt, pid, field string, args map[string]any) ref.Out {
 		default:
 			o, _ = w.fault(c, 2)
 		}
+	case "User.marks", "Query.odds":
+		c := w.pick(key, 4+w.nf())
+		a, b := "o1:"+cid, "o2:"+cid
+		switch c {
+		case 0:
+			o = ref.Out{Strs: []*string{&a, &b}}
+		case 1:
+			o = ref.Out{Strs: []*string{&a, nil}}
+		case 2:
+			o = ref.Out{K: ref.KNull}
+		case 3:
+			o = ref.Out{Strs: []*string{}}
+		default:
+			o, _ = w.fault(c, 4)
+		}
+	case "User.stamps":
+		// non-null list: nil slice == empty list (see Query.users)
+		c := w.pick(key, 3+w.nf())
+		a, b := "o1:"+cid, "o2:"+cid
+		switch c {
+		case 0:
+			o = ref.Out{Strs: []*string{&a}}
+		case 1:
+			o = ref.Out{Strs: []*string{nil, &b}}
+		case 2:
+			o = ref.Out{Strs: []*string{}}
+		default:
+			o, _ = w.fault(c, 3)
+		}
 	case "Commands.a":
 		c := w.pick(key, 1+w.nf())
 		switch c {
@@ -336,6 +365,24 @@ func (w *world) userList(pt, pid, field string) ([]*User, error) {
 	return r, nil
 }
 
+func (w *world) oddList(pt, pid, field string) ([]*Odd, error) {
+	w.called(pid + "/" + pt + "." + field)
+	o := w.Resolve(pt, pid, field, nil)
+	if done, err := outErr(o); done {
+		return nil, err
+	}
+	if o.Strs == nil {
+		return nil, nil
+	}
+	r := make([]*Odd, len(o.Strs))
+	for i, e := range o.Strs {
+		if e != nil {
+			r[i] = &Odd{V: *e}
+		}
+	}
+	return r, nil
+}
+
 func mkNode(o *ref.Obj) Node {
 	if o == nil {
 		return nil
@@ -381,6 +428,7 @@ func (r *queryResolver) Nodes(ctx context.Context) ([]Node, error) {
 	}
 	return res, nil
 }
+func (r *queryResolver) Odds(ctx context.Context) ([]*Odd, error) { return r.w.oddList("Query", "", "odds") }
 func (r *queryResolver) Strict(ctx context.Context) (*User, error) {
 	return r.w.user("Query", "", "strict")
 }
@@ -465,6 +513,12 @@ func (r *userResolver) Secret(ctx context.Context, obj *User) (*string, error) {
 }
 func (r *userResolver) Echo(ctx context.Context, obj *User, n *int, s *string, o *Odd) (*string, error) {
 	return r.str(obj, "echo")
+}
+func (r *userResolver) Marks(ctx context.Context, obj *User) ([]*Odd, error) {
+	return r.w.oddList("User", obj.ID, "marks")
+}
+func (r *userResolver) Stamps(ctx context.Context, obj *User) ([]*Odd, error) {
+	return r.w.oddList("User", obj.ID, "stamps")
 }
 func (r *userResolver) Link(ctx context.Context, obj *User) (*User, error) {
 	return r.w.user("User", obj.ID, "link")
@@ -705,6 +759,30 @@ func opCtxFor(w *world, doc *ast.QueryDocument, vars map[string]any) *graphql.Op
 		ResolverMiddleware:     func(ctx context.Context, next graphql.Resolver) (any, error) { return next(ctx) },
 		RootResolverMiddleware: func(ctx context.Context, next graphql.RootResolver) graphql.Marshaler { return next(ctx) },
 	}
+}
+
+// scalarListIdx strips the element index from error paths that end in an
+// element of one of the probe's scalar lists (User.marks, User.stamps):
+// gqlgen reports a null element of a non-null scalar list at the list's path
+// (known finding F-18, recorded under C01 where the path clause belongs);
+// harnesses about other clauses compare modulo this.
+func scalarListIdx(paths []string) []string {
+	r := make([]string, len(paths))
+	for i, p := range paths {
+		r[i] = p
+		if k := strings.LastIndexByte(p, '['); k > 0 && strings.HasSuffix(p, "]") {
+			if strings.HasSuffix(p[:k], "stamps") || strings.HasSuffix(p[:k], "marks") {
+				r[i] = p[:k]
+			}
+		}
+	}
+	sort.Strings(r)
+	return r
+}
+
+// sameErrors: equal multisets of error paths, modulo scalarListIdx.
+func sameErrors(got, want []string) bool {
+	return sameStrings(scalarListIdx(got), scalarListIdx(want))
 }
 
 func sameStrings(a, b []string) bool {
